@@ -454,6 +454,7 @@ func (g *gen) onePixelCase(it int) {
 	unit := math.Min(W, H) / 20 // polygons live in [-8,8]^2
 	ndraws := 1 + c.Intn(3)
 	anyOpen := false
+	checkDashZone := false
 	viewKinds := ""
 	for k := 0; k < ndraws; k++ {
 		// view: centre + rotation/scale/… ; both through the composer API and through SetView
@@ -578,6 +579,13 @@ func (g *gen) onePixelCase(it int) {
 				dashes = [][]float64{{3, 2}, {4, 4}, {2, 1, 1, 1}, {6, 3}}[c.Intn(4)]
 				ctx.SetDashes(0, append([]float64{}, dashes...)...)
 				c.Count("draw stroke dashed")
+				// DrawPath.checkDash compares the UNSCALED pattern with the path length, the rasterizer
+				// then scales the pattern by the stroke width: flag the zone where the two disagree
+				if L := p.Length(); dashes[0] >= L-1e-9 && dashes[0]*w < L-1e-9 {
+					checkDashZone = true
+					c.Count("draw stroke dashed: first dash >= path length before scaling, < after")
+				}
+				d += fmt.Sprintf(" dashes=%v", dashes)
 			}
 			// the stroke region: the library's own Dash/Stroke output (C05/C04 judge them), flattened, NonZero
 			var sp *canvas.Path
@@ -680,8 +688,14 @@ func (g *gen) onePixelCase(it int) {
 	sb.WriteString(" ROWS ")
 	sb.WriteString(strings.Join(rows, " "))
 	sfx := ""
+	if checkDashZone {
+		sfx += "+checkdash-units"
+	}
 	if anyOpen {
-		sfx = " +open"
+		sfx += "+open"
+	}
+	if sfx != "" {
+		sfx = " " + sfx
 	}
 	c.Case(sb.String(), "!", "pixels"+sfx)
 	// human-readable description of the canvas behind every PIX line (same order), for replays
